@@ -199,6 +199,33 @@ def mk_Q(model, _replay=None):
         return {"status": "cex" if str(s.check()) == "sat" else "inconclusive", "cex": {"twin": "assumptions satisfiable with non-zero Q"}}
     results = []
     nq = 0
+    # Every entry of Q is (unnormalised entry) * (1 / S) with ONE shared normaliser S. For big alphabets z3 cannot see through the
+    # division, so the same claims are restated on the numerators: q_ij = n_ij / S  with S > 0 proved first.
+    flat = [q[i][j] for i in range(N) for j in range(N)]
+    cd = psx.common_denominator_form(flat) if N > 4 else None
+    if cd is not None:
+        nums, S = cd
+        n = [[nums[i * N + j] for j in range(N)] for i in range(N)]
+        r, m, dt = psx.check_valid(A, S > 0, timeout_ms=int(W_TIMEOUT * 1000))
+        nq += 1
+        results.append(("normaliser_positive", r, round(dt, 2)))
+        if r != "unsat":
+            return {"status": "inconclusive" if r != "sat" else "cex", "detail": f"normaliser S > 0: z3 {r}", "cex": {"obligation": "normaliser_positive", "model": model, "values": {k: psx.model_float(m, v) for k, v in allvars.items()} if m is not None else {}}}
+        A = list(A) + [S > 0]
+        obligations = [
+            ("row_sums_zero", z3.And(*[z3.Sum(n[i]) == 0 for i in range(N)])),
+            ("offdiag_nonneg", z3.And(*[n[i][j] >= 0 for i in range(N) for j in range(N) if i != j])),
+            ("zero_off_mask", z3.And(*[n[i][j] == 0 for i in range(N) for j in range(N) if i != j and not mask[i, j]] or [z3.BoolVal(True)])),
+            ("positive_on_mask", z3.And(*[n[i][j] > 0 for i in range(N) for j in range(N) if i != j and mask[i, j]])),
+            ("calibrated_rate_one", z3.Sum([w[i] * (-n[i][i]) for i in range(N)]) == S),
+            ("word_probs_distribution", z3.And(z3.Sum(w) == 1, *[x > 0 for x in w])),
+        ]
+        if isinstance(sm, SM.Stationary):
+            for j in range(N):
+                obligations.append((f"stationary_col{j}", z3.Sum([w[i] * n[i][j] for i in range(N)]) == 0))
+        if isinstance(sm, SM.TimeReversible):
+            for i in range(N):
+                obligations.append((f"detailed_balance_row{i}", z3.And(*[w[i] * n[i][j] == w[j] * n[j][i] for j in range(N) if j > i] or [z3.BoolVal(True)])))
     for nm, claim in obligations:
         r, m, dt = psx.check_valid(A, claim, timeout_ms=int(W_TIMEOUT * 1000))
         nq += 1
@@ -443,9 +470,9 @@ ENCODED = [
     ("src/cogent3/evolve/solved_models_numba.py", ["calc_TN93_P (.py_func)"]),
 ]
 BOUNDS = {
-    "quick": ["nucleotide models JC69 F81 K80 HKY85 TN93 GTR GN ssGN (4 states); dinucleotide (16 states) with mprob_model=monomer (optional obligation)",
+    "quick": ["nucleotide models JC69 F81 K80 HKY85 TN93 GTR GN ssGN (4 states); dinucleotide (16 states) with mprob_model=monomer (claims restated on the numerators of the shared normaliser)",
               "all motif probabilities (>0, sum 1) and all rate parameters (>0): unbounded reals", "word probabilities of codon (61 sense codons) and trinucleotide (64) alphabets under all four motif-probability models", "rate classes: 2..4 bins", "per-query z3 budget 300 s"],
-    "thorough": ["as quick + dinucleotide with mprob_model in {tuple, monomers, conditional} as OPTIONAL obligations (attempted under the per-query cap; reported, not counted, when z3 gives up)", "all motif probabilities and rate parameters: unbounded reals", "rate classes: 2..5 bins", "per-query z3 budget 300 s"],
+    "thorough": ["as quick + dinucleotide with mprob_model in {tuple, monomers, conditional}; codon (61-state) Q matrices as OPTIONAL obligations (attempted under the cap; reported, not counted, when z3 gives up)", "all motif probabilities and rate parameters: unbounded reals", "rate classes: 2..5 bins", "per-query z3 budget 300 s"],
 }
 ASSUMPTIONS = [
     "exact real arithmetic stands in for IEEE floats: the claim is about the formula the code implements, not rounding",
@@ -467,7 +494,11 @@ def obligations(tier):
         obs.append(Ob(f"Q/{m}", __name__, "mk_Q", {"model": m}, kind="direct", timeout=1200, group="Q"))
     dinuc = ["dinuc:kappa:monomer"] + (["dinuc:kappa:tuple", "dinuc:kappa:monomers", "dinuc:kappa:conditional", "dinuc:none:tuple"] if T else [])
     for m in dinuc:
-        obs.append(Ob(f"Q/{m}", __name__, "mk_Q", {"model": m}, kind="direct", timeout=2400, group="Q", optional=True))
+        obs.append(Ob(f"Q/{m}", __name__, "mk_Q", {"model": m}, kind="direct", timeout=2400, group="Q"))
+    if T:
+        # 61-state codon models: attempted under the cap, reported, never counted unless z3 finishes
+        for m in ("codon:tuple", "codon:monomer"):
+            obs.append(Ob(f"Q/{m}", __name__, "mk_Q", {"model": m}, kind="direct", timeout=3600, group="Q", optional=True))
     for kind in ("codon", "trinuc"):
         for mprob in ("monomer", "monomers", "conditional", "tuple"):
             obs.append(Ob(f"word_probs/{kind}:{mprob}", __name__, "mk_word_probs", {"model": f"{kind}:{mprob}"}, kind="direct", timeout=1200, group="wordprobs"))
